@@ -336,7 +336,7 @@ def _all_strings(maxlen):
 
 
 IDENTS = ["a", "x1", "key", "é", "日本", "_", "self", "A9"]
-NUMS = ["0", "1", "12", "007", "255", "9223372036854775807"]
+NUMS = ["0", "1", "12", "007", "255", "256", "65536", "4294967295", "4294967296", "9223372036854775807"]
 CONVS = ["r", "s", "a", "b", "x", "é", "!", "]", "."]
 FILLS = ["", ">", "<10", "^{w}", "{0}", ".{p}f", "0=+8,.3e", "é<4", "[]", "[^9]", "a]", ":", "!r", "x!", "{}{}"]
 
@@ -405,7 +405,7 @@ CORPUS_TMPL = ["", "a", "{}", "{{", "}}", "{", "}", "{{}", "{}}", "{{}}", "{{{ke
                "{a[]}", "{a.}", "{a[1]b}", "{é[é].é!é:é}", "}{", "{}{", "{:{}}}", "{a]}", "{]}", "{.}", "{:.}"]
 CORPUS_FNAME = ["", "0", "key", "key.attr[0][string]", "key..", "key[]", "key[", "key[0]after", "a.b[1][x]", "a]b",
                 "00", "0x", "-1", "a[-1]", "a[ 1]", "1_0", ".a", "[1]", "a[.]", "a[[]", "a[]]", "a.[", "a.b.",
-                "18446744073709551615", "9223372036854775807", "a[9223372036854775807]", "é.é[é]", "a[0]["]
+                "18446744073709551615", "9223372036854775807", "a[9223372036854775807]", "4294967296", "a[4294967296]", "a[65536]", "é.é[é]", "a[0]["]
 
 
 def streams(ctx):
